@@ -84,7 +84,7 @@ static bool g_user_released_since_pred;         /* the user lock was released af
 
 #define PUB_GHOST g_int_releases, g_int_acquires, g_int_held_since_user_unlock, g_stop_checked_false_in_cs, g_il_owns, g_blk->mtx_.held, g_blk->count_, \
                   g_user->held, g_self_dead, g_user_unlocks, g_user_locks, g_dwaits, g_last_wake, g_last_timed, g_dnotify_one, g_dnotify_all, \
-                  g_pred_calls, g_last_pred, g_user_released_since_pred, g_stop, g_stop_seen, g_cb_registered, g_cb_runs_here, vx_exc
+                  g_pred_calls, g_last_pred, g_user_released_since_pred, g_ec.value, g_stop, g_stop_seen, g_cb_registered, g_cb_runs_here, vx_exc
 
 static long g_blk_count(void) { return g_blk->count_; }
 /* ---- the data block and the intrusive_ptr that keeps it alive --------------------------------------------------- */
